@@ -70,7 +70,8 @@ func c16ProgramID(e *Env, i int, id string) *Program {
 	}
 	p.InjBlankImports = []string{"embed", "net/http/pprof", "image/png"}
 	p.InjRaw = "// copied declarations\nvar copiedVar = map[string]int{\"a\": 1, \"b\": 2}\n\ntype copiedType struct{ A, B int }\n\nfunc copiedFunc(x int) int {\n\ty := x * 2\n\treturn y + len(copiedVar)\n}\n"
-	p.PkgIdents = append(p.PkgIdents, "copiedVar", "copiedType", "copiedFunc")
+	p.InjRawB = "// copied declarations of the second injector file\nvar copiedVarB = []string{\"x\", \"y\"}\n\nfunc copiedFuncB(s string) int { return len(s) + len(copiedVarB) }\n"
+	p.PkgIdents = append(p.PkgIdents, "copiedVar", "copiedType", "copiedFunc", "copiedVarB", "copiedFuncB")
 	p.Note = "determinism"
 	return p
 }
